@@ -7,6 +7,7 @@ package app
 // host) must finish or reject the request and the cluster must converge.
 
 import (
+	"sort"
 	"fmt"
 	"math/rand"
 	"os"
@@ -82,6 +83,13 @@ func TestVerifC07(t *testing.T) {
 		}
 	}
 	rng.Shuffle(len(bases), func(a, b int) { bases[a], bases[b] = bases[b], bases[a] })
+	// the sample starts with the resumed AUTOMATIC failovers on three and four nodes (one per shard at least): they are the
+	// histories in which the recorded master has already moved when the request is picked up again
+	sort.SliceStable(bases, func(a, b int) bool {
+		pa := bases[a].req.Kind == "auto" && len(bases[a].hosts) >= 3
+		pb := bases[b].req.Kind == "auto" && len(bases[b].hosts) >= 3
+		return pa && !pb
+	})
 	runs, nbase := 0, 0
 	for bi, b := range bases {
 		if bi%sn != si {
